@@ -270,23 +270,27 @@ func checkOnlyOwnMiddleware(c *report.Ctx) {
 
 // checkFeatureNamesTrimmed: the names in the registration feature header are compared after trimming blanks.
 func checkFeatureNamesTrimmed(c *report.Ctx) {
-	f := fn(c, "L/rapi/handler", "parseRegistrationFeatures")
-	if f == nil {
-		return
-	}
+	// anchored on the table of known features, wherever in the package it is consulted
 	n, ok := 0, true
-	an.AllInstrs(f, func(in ssa.Instruction) {
-		lk, k := in.(*ssa.Lookup)
-		if !k || an.GlobalOf(lk.X) != "L/rapi/handler.allowedFeatures" {
-			return
+	pos := token.NoPos
+	for _, f := range repoFuncs(c) {
+		if !strings.HasPrefix(an.FuncName(f), "L/rapi/handler.") {
+			continue
 		}
-		n++
-		cl, _ := an.CallOf(an.Strip(lk.Index, true))
-		if cl == nil || an.Callee(cl) != "strings.TrimSpace" {
-			ok = false
-		}
-	})
-	c.Check("R-WIRE", an.FuncName(f)+"/names-trimmed", "each feature name is looked up after strings.TrimSpace (\"a, accountId\" asks for accountId)", ok && n == 1, fpos(f), n, "lookups: %d, keyed by the trimmed name: %v", n, ok)
+		an.AllInstrs(f, func(in ssa.Instruction) {
+			lk, k := in.(*ssa.Lookup)
+			if !k || an.GlobalOf(lk.X) != "L/rapi/handler.allowedFeatures" {
+				return
+			}
+			n++
+			cl, _ := an.CallOf(an.Strip(lk.Index, true))
+			if cl == nil || an.Callee(cl) != "strings.TrimSpace" {
+				ok = false
+				pos = an.InstrPos(in)
+			}
+		})
+	}
+	c.Check("R-WIRE", "L/rapi/handler.allowedFeatures/names-trimmed", "each feature name is looked up after strings.TrimSpace (\"a, accountId\" asks for accountId)", ok && n >= 1, pos, n, "lookups: %d, keyed by the trimmed name: %v", n, ok)
 }
 
 // checkInitFieldsToEnvArgs: the environment store functions receive handler, function name and function version
